@@ -13,6 +13,9 @@
 #include <cstdint>
 #include <cstdio>
 #include <cstring>
+#if __cplusplus >= 202002L
+#include <compare>
+#endif
 #include <type_traits>
 #include <utility>
 
@@ -161,6 +164,9 @@ inline bool operator<(const TC12 &a, const TC12 &b) { return a.v < b.v; }
 inline bool operator>(const TC12 &a, const TC12 &b) { return a.v > b.v; }
 inline bool operator<=(const TC12 &a, const TC12 &b) { return a.v <= b.v; }
 inline bool operator>=(const TC12 &a, const TC12 &b) { return a.v >= b.v; }
+#if __cplusplus >= 202002L
+inline auto operator<=>(const TC12 &a, const TC12 &b) { return a.v <=> b.v; }
+#endif
 
 /// Declared trivially relocatable, not trivially copyable; identity is the id stored in the object.
 class TR {
@@ -237,6 +243,9 @@ inline bool operator<(const TR &a, const TR &b) { return a.v < b.v; }
 inline bool operator>(const TR &a, const TR &b) { return a.v > b.v; }
 inline bool operator<=(const TR &a, const TR &b) { return a.v <= b.v; }
 inline bool operator>=(const TR &a, const TR &b) { return a.v >= b.v; }
+#if __cplusplus >= 202002L
+inline auto operator<=>(const TR &a, const TR &b) { return a.v <=> b.v; }
+#endif
 
 /// Not relocatable: keeps a pointer to itself; identity is the address.
 class NTR {
@@ -319,6 +328,9 @@ inline bool operator<(const NTR &a, const NTR &b) { return a.v < b.v; }
 inline bool operator>(const NTR &a, const NTR &b) { return a.v > b.v; }
 inline bool operator<=(const NTR &a, const NTR &b) { return a.v <= b.v; }
 inline bool operator>=(const NTR &a, const NTR &b) { return a.v >= b.v; }
+#if __cplusplus >= 202002L
+inline auto operator<=>(const NTR &a, const NTR &b) { return a.v <=> b.v; }
+#endif
 
 typedef std::pair<TR, TR> PTT;
 typedef std::pair<TR, NTR> PTN;
